@@ -24,8 +24,8 @@
 (* Lines are checked one by one against the state built from the lines before; unexplained     *)
 (* lines are collected (variable bad).                                                         *)
 EXTENDS OSSPS, TraceLib
-VARIABLES l, sys, c, p, data, ref, run, den, prev, xm, bad
-vars == << l, sys, c, p, data, ref, run, den, prev, xm, bad >>
+VARIABLES l, sys, c, p, data, ref, run, den, prev, xm, taint, bad
+vars == << l, sys, c, p, data, ref, run, den, prev, xm, taint, bad >>
 
 NoSys == [id |-> 0]
 NoCfg == [id |-> 0]
@@ -99,27 +99,30 @@ SetUpOk(r) ==
 (* ---- Step *)
 First(r) == r.k = run.start
 FilterApplies(r) == (c.filterInt > 0 /\ r.k % c.filterInt = 0) \/ (c.post /\ r.k = run.last)
-(* the image handed to the objective function: at the first sub-iteration of a run "set all voxels to 0 that cannot be estimated" *)
-EstOk(r) ==
+(* the image handed to the objective function: "set all voxels to 0 that cannot be estimated" before the first update of a *)
+(* FRESH reconstruction only (FillApplies, OSSPS.tla); a resumed run continues from the saved iterate as it is.            *)
+(* reading = "doc" or "refill_on_resume" (the behaviour of finding C08-resume-nonidentifiable, used for classification)    *)
+EstOk(r, reading) ==
   /\ Has(r, "est") /\ Len(r.est) = sys.nv
-  /\ \A v \in 1..sys.nv : r.est[v] = (IF First(r) /\ ColEmpty(v) THEN 0 ELSE r.lam0[v])
+  /\ LET zs(v) == ColEmpty(v) IN
+     r.est = (IF FillApplies(r.k, run.start, reading) THEN FillNonIdentifiable(r.lam0, zs) ELSE r.lam0)
 
-StepCommon(r) ==
+StepCommon(r, reading, waiveRef) ==
   /\ c # NoCfg /\ run # NoRun /\ run.setup /\ r.k = run.next /\ r.k <= run.last
   /\ r.kl = run.kl /\ Len(r.lam0) = sys.nv /\ Len(r.lam1) = sys.nv /\ Len(r.lam2) = sys.nv
   /\ Len(r.b0) = sys.nv /\ Len(r.b1) = sys.nv /\ Len(r.b2) = sys.nv
   \* one sub-gradient request per sub-iteration, for the subset of the schedule, with the configured number of subsets
   /\ r.nGrad = 1 /\ r.sub = SubsetOf(c, r.k) /\ r.nsub = c.N /\ Has(r, "g") /\ Len(r.g) = sys.nv
-  /\ r.nFill = (IF First(r) THEN 1 ELSE 0)
+  /\ r.nFill \in 0..1
   \* the sub-iteration starts from the image the previous one (or set_up) left
   /\ r.b0 = prev
-  /\ EstOk(r)
+  /\ EstOk(r, reading)
   \* "Iterates therefore always lie within [0, upper bound]" - after the update, and after bound-preserving filters
   /\ WithinBounds(c, r.b1) /\ WithinBounds(c, r.b2)
   \* without a filter end_of_iteration_processing leaves the iterate alone
   /\ FilterApplies(r) \/ r.b2 = r.b1
   \* "resuming from a saved iterate reproduces the uninterrupted run" (bit for bit); likewise the object used before
-  /\ Compared(run.kind) => (r.k \in DOMAIN ref.steps /\ r.b2 = ref.steps[r.k])
+  /\ (Compared(run.kind) /\ ~waiveRef) => (r.k \in DOMAIN ref.steps /\ r.b2 = ref.steps[r.k])
 
 (* the law on an exact instance: TLC computes gradient, denominator and the new value from P, y, a, lambda, weights, kappa. *)
 (* A float holds 24 significant bits: a value x (units 2^-kl) with |x| < 2^24 is held exactly, a larger one to one ulp.      *)
@@ -164,7 +167,7 @@ Explains(r, m) ==
                        /\ (~c.additive => \A b \in 1..NB(sys) : r.a[b] = 0)          \* no additive term
     [] r.e = "Run" -> RunOk(r)
     [] r.e = "SetUp" -> SetUpOk(r)
-    [] r.e = "Step" -> StepCommon(r) /\ (IF c.exact THEN StepExactOk(r, m) ELSE StepFreeOk(r))
+    [] r.e = "Step" -> StepCommon(r, "doc", FALSE) /\ (IF c.exact THEN StepExactOk(r, m) ELSE StepFreeOk(r))
     [] r.e = "RunEnd" -> /\ run # NoRun /\ run.setup /\ ~r.err /\ r.ok
                          /\ r.steps = run.last - run.start + 1 /\ run.next = run.last + 1 /\ r.finalBits = prev
     [] r.e = "Saved" -> /\ ref.cfg = r.cfg /\ ref.obj = r.obj /\ ~r.err
@@ -173,7 +176,21 @@ Explains(r, m) ==
     [] r.e = "End" -> r.lines >= l - 1
     [] OTHER -> FALSE          \* Abort, ConfigureError, unknown lines
 
-Init == /\ l = 1 /\ sys = NoSys /\ c = NoCfg /\ p = << >> /\ data = NoData /\ ref = NoRef /\ run = NoRun
+(* Finding C08-resume-nonidentifiable: update_estimate sets the voxels of zero sensitivity to 0 at the first sub-iteration  *)
+(* of EVERY run.  Signature: a run that starts at a sub-iteration > 1, a prior, a voxel no bin sees; the first Step of the   *)
+(* run handed the objective function the image with those voxels zeroed although the saved iterate had a non-zero value     *)
+(* there (RefillHit), and everything else about the line is as the law demands for THAT image; the later Steps of the same  *)
+(* run (taint) obey the law but no longer repeat the reference run.  Nothing else is excused.                               *)
+HasHole == \E v \in 1..sys.nv : ColEmpty(v)
+RefillHit(r) == r.k = run.start /\ \E v \in 1..sys.nv : ColEmpty(v) /\ r.lam0[v] # 0
+KnownRefill(r, m) ==
+  /\ r.e = "Step" /\ c # NoCfg /\ run # NoRun /\ run.start > 1 /\ c.prior /\ HasHole
+  /\ Has(r, "lam0") /\ Len(r.lam0) = sys.nv /\ Has(r, "k")
+  /\ (RefillHit(r) \/ (taint /\ r.k > run.start))
+  /\ StepCommon(r, "refill_on_resume", TRUE) /\ (IF c.exact THEN StepExactOk(r, m) ELSE StepFreeOk(r))
+Classify(r, m) == IF KnownRefill(r, m) THEN "C08-resume-nonidentifiable" ELSE "new"
+
+Init == /\ taint = FALSE /\ l = 1 /\ sys = NoSys /\ c = NoCfg /\ p = << >> /\ data = NoData /\ ref = NoRef /\ run = NoRun
         /\ den = << >> /\ prev = << >> /\ xm = << >> /\ bad = << >>
 
 ShapedStep(r) == r.e = "Step" /\ c # NoCfg /\ c.exact /\ data # NoData /\ Has(r, "est") /\ Len(r.est) = sys.nv /\ Has(r, "kl")
@@ -199,7 +216,10 @@ Next ==
                ELSE ref
      \* memo of the exact instance at the image handed to the objective function (computed once per line)
      /\ xm' = IF ShapedStep(r) THEN XMemo(sys, XOf(r.est, r.kl)) ELSE xm
-     /\ bad' = IF Explains(r, xm') THEN bad ELSE IF Len(bad) < 300 THEN Append(bad, << l, "new" >>) ELSE bad
+     /\ taint' = IF r.e \in {"Run", "RunEnd", "System"} THEN FALSE
+                 ELSE IF r.e = "Step" /\ ~Explains(r, xm') /\ KnownRefill(r, xm') THEN TRUE
+                 ELSE taint
+     /\ bad' = IF Explains(r, xm') THEN bad ELSE IF Len(bad) < 300 THEN Append(bad, << l, Classify(r, xm') >>) ELSE bad
   /\ l' = l + 1
 TSpec == Init /\ [][Next]_vars
 
